@@ -490,7 +490,8 @@ def follow (M : Model) : Nat → Gamma → FSt → Expr → Except Err FRes
               pure ⟨c', p.ret, st3⟩
             | Option.none => .error (.valueError "Property was not decorated")
           | Option.none => .error (.internal "AttributeError")
-        | _ => .error (.internal "AttributeError")
+        -- a literal, a callable, ...: only an object of a declared class can have a parameterized property
+        | _ => pure ⟨.call rf.e args' kwn kwv', .any, st2⟩
       | .lam ps body => do
         -- process_called_lambda: the body is followed after the arguments, parameters hiding outer names
         let rb ← follow M fuel (lamArgTys ps (as'.map (·.2)) kwn (ks'.map (·.2)) ++ G) st2 body
